@@ -243,6 +243,7 @@ func hostilePrograms() []hostile {
 		psHostile("results of operators overwritten", "matrix dup 0 42 put 3 /bad put 4 array 0 7 put 3 string 0 65 put (lit) 0 66 put <1F> 0 16#7F put <41> 0 0 put <0041> 1 9 put [1 2 3] 1 /x put "+
 			"2 dict /k 1 put << /a 1 >> /a 2 put currentdict /cd 1 put 1183615869 internaldict /i 1 put matrix 0 6 getinterval 5 (s) put", 0),
 		psHostile("results of operators overwritten in a loop", "0 1 5 { matrix exch /m put } for 0 1 255 { 1 string dup 0 4 -1 roll put 0 0 put } for <00> 0 255 put <ff> 0 1 put /done true def", 0),
+		psHostile("dictionaries compared", "/r << /a 1 >> << /b 2 >> eq def /s 1 dict 1 dict ne def /t userdict userdict eq def 5 { << /k 1 >> << /k 1 >> eq pop } repeat systemdict errordict ne pop", 0),
 		psHostile("StandardEncoding: put", "StandardEncoding 65 /zz put", 0),
 		psHostile("StandardEncoding: putinterval", "StandardEncoding 0 [/q /r /s] putinterval", 0),
 		psHostile("StandardEncoding: copy into", "[/x /y] StandardEncoding copy pop", 0),
@@ -412,6 +413,24 @@ func hostilePrograms() []hostile {
 	// inputs that differ from everything the probe workload reads: whatever a
 	// reader or writer keeps in package-level scratch storage is left in a
 	// different state than after the probe
+	hs = append(hs, hostile{"fonts and metrics whose encoding IS the library's exported table, written and queried", func() bool {
+		// a caller may hand the library its own exported tables back: psenc.StandardEncoding[:]
+		// as the Encoding of a font that has only a few of the glyphs
+		f := holeFont(false)
+		f.Encoding = psenc.StandardEncoding[:]
+		for _, format := range corpus.Formats {
+			f.Write(&bytes.Buffer{}, &type1.WriterOptions{Format: format})
+		}
+		f.Write(&bytes.Buffer{}, nil)
+		f.WritePDF(&bytes.Buffer{})
+		f.GlyphList()
+		f.BuiltinEncoding()
+		m := corpus.SampleMetrics()
+		m.Encoding = psenc.StandardEncoding[:]
+		m.Write(&bytes.Buffer{})
+		m.GlyphList()
+		return true
+	}})
 	hs = append(hs, hostile{"readers and writers on inputs the probe never sees", func() bool {
 		t1 := corpus.FontsT1gen()
 		for _, in := range []corpus.Input{t1[0], t1[len(t1)/2], t1[len(t1)-1]} {
